@@ -265,7 +265,7 @@ func (m *Model) ruleLOOPVAR(r *Results) {
 func (m *Model) ruleFEEDSTART(r *Results) {
 	const rule = "R-FEED-START"
 	a := &m.A
-	loopFn, _, _ := m.feedLoopFn()
+	loopFn, _ := m.feedRoot()
 	if loopFn == nil || a.FeedsField == nil {
 		r.undecided(rule, "anchors", "-", "feed loop / registry unresolved")
 		return
@@ -1382,60 +1382,89 @@ func (m *Model) openCleanupOnlyNew(r *Results, rule string, fn *ssa.Function) {
 		}
 		return taken == eq
 	}
+	// isNewFlag: v is (a load of) a bool flag of the open function that is set only where the
+	// schema version was found to be 0
+	isNewFlag := func(v ssa.Value, in *ssa.Function) bool {
+		flag := cellOf(v, in)
+		al, ok := flag.(*ssa.Alloc)
+		if !ok {
+			return false
+		}
+		onlyUnderZero, anyTrue := true, false
+		for _, st := range cellStores(al) {
+			if cst, ok := st.Val.(*ssa.Const); ok && cst.Value != nil && !constant.BoolVal(cst.Value) {
+				continue
+			}
+			anyTrue = true
+			under := false
+			for _, ct2 := range controllingConds(st.Parent(), st.Block()) {
+				if versZeroTaken(ct2, st.Parent()) {
+					under = true
+				}
+			}
+			if !under {
+				onlyUnderZero = false
+			}
+		}
+		return anyTrue && onlyUnderZero
+	}
+	// guarded: the call (in function `in`) runs only when the database is new; isNew tells whether a
+	// bare boolean value of `in` stands for "new"
+	var guardedNew func(c ssa.CallInstruction, in *ssa.Function, isNew func(ssa.Value) bool) bool
+	guardedNew = func(c ssa.CallInstruction, in *ssa.Function, isNew func(ssa.Value) bool) bool {
+		for _, ct := range controllingConds(in, c.Block()) {
+			if versZeroTaken(ct, in) {
+				return true
+			}
+			cd := condOf(ct.If)
+			if cd.Op != token.ILLEGAL || cd.X == nil {
+				continue
+			}
+			if ct.Branch == cd.Neg {
+				continue // taken when the flag is false
+			}
+			if isNew(cd.X) {
+				return true
+			}
+		}
+		return false
+	}
 	n := 0
-	for _, an := range fn.AnonFuncs {
-		m.eachCall(an, func(c ssa.CallInstruction) {
+	var visitCleanup func(in *ssa.Function, isNew func(ssa.Value) bool, depth int)
+	visitCleanup = func(in *ssa.Function, isNew func(ssa.Value) bool, depth int) {
+		m.eachCall(in, func(c ssa.CallInstruction) {
 			callee := c.Common().StaticCallee()
 			if callee == nil || !m.inPkg(callee) || !m.deletesFiles(callee) {
 				return
 			}
-			n++
-			key := m.declName(fn) + " / cleanup deletes only a bucket created by this call"
-			good := false
-			for _, ct := range controllingConds(an, c.Block()) {
-				if versZeroTaken(ct, an) {
-					good = true
-					continue
-				}
-				// a flag that is set only where the schema version was found to be 0
-				cd := condOf(ct.If)
-				if cd.Op != token.ILLEGAL || cd.X == nil {
-					continue
-				}
-				if ct.Branch == cd.Neg {
-					continue // taken when the flag is false
-				}
-				flag := cellOf(cd.X, an)
-				al, ok := flag.(*ssa.Alloc)
-				if !ok {
-					continue
-				}
-				onlyUnderZero, anyTrue := true, false
-				for _, ref := range *al.Referrers() {
-					st, ok := ref.(*ssa.Store)
-					if !ok || st.Addr != ssa.Value(al) {
-						continue
-					}
-					if cst, ok := st.Val.(*ssa.Const); ok && cst.Value != nil && !constant.BoolVal(cst.Value) {
-						continue
-					}
-					anyTrue = true
-					under := false
-					for _, ct2 := range controllingConds(fn, st.Block()) {
-						if versZeroTaken(ct2, fn) {
-							under = true
-						}
-					}
-					if !under {
-						onlyUnderZero = false
+			if guardedNew(c, in, isNew) {
+				n++
+				r.ok(rule, m.declName(fn)+" / cleanup deletes only a bucket created by this call", m.instrPos(c), "the deleting cleanup runs only when the schema version read by this call was 0 (the database did not exist before)")
+				return
+			}
+			// a cleanup helper that is handed the "new" flag and decides itself
+			if depth < 2 && len(callee.Blocks) > 0 {
+				newParams := map[*ssa.Parameter]bool{}
+				for i, a := range c.Common().Args {
+					if i < len(callee.Params) && isNew(a) {
+						newParams[callee.Params[i]] = true
 					}
 				}
-				if anyTrue && onlyUnderZero {
-					good = true
+				if len(newParams) > 0 {
+					visitCleanup(callee, func(v ssa.Value) bool {
+						p, ok := stripConv(v).(*ssa.Parameter)
+						return ok && newParams[p]
+					}, depth+1)
+					return
 				}
 			}
-			r.check(good, rule, key, m.instrPos(c), "the deleting cleanup runs only when the schema version read by this call was 0 (the database did not exist before)", "the open function's cleanup-on-error deletes the bucket's files whether or not the bucket existed before this call: a failed open of an existing bucket (e.g. database locked by another process) destroys its data")
+			n++
+			r.bad(rule, m.declName(fn)+" / cleanup deletes only a bucket created by this call", m.instrPos(c), "the open function's cleanup-on-error deletes the bucket's files whether or not the bucket existed before this call: a failed open of an existing bucket (e.g. database locked by another process) destroys its data")
 		})
+	}
+	for _, an := range fn.AnonFuncs {
+		an := an
+		visitCleanup(an, func(v ssa.Value) bool { return isNewFlag(v, an) }, 0)
 	}
 	if n == 0 {
 		r.ok(rule, m.declName(fn)+" / cleanup deletes only a bucket created by this call", m.pos(fn.Pos()), "the open function has no deferred cleanup that deletes files")
